@@ -319,8 +319,16 @@ package openapi3filter
 //@ spec decOK(p *openapi3.Parameter, in *RequestValidationInput) bool
 //@ func decodeStyledParameter
 //@   modifies *
-//@   preserves all(openapi3), all(routers), Options.*, RequestValidationInput.*, http.Request.*, url.URL.*
+//@   preserves all(openapi3), all(routers), Options.*, RequestValidationInput.Request, RequestValidationInput.PathParams, RequestValidationInput.Route, RequestValidationInput.Options, RequestValidationInput.ParamDecoder, http.Request.*, url.URL.*, http.Header
 //@   defines result.0 == decValue(param, input) && result.1 == decFound(param, input) && ((result.2 == nil) <==> decOK(param, input))
+// (parameters defined by `content` are outside the C05 / C13 clauses; frame only)
+//@ func decodeContentParameter
+//@   modifies *
+//@   preserves all(openapi3), all(routers), Options.*, RequestValidationInput.Request, RequestValidationInput.PathParams, RequestValidationInput.Route, RequestValidationInput.Options, RequestValidationInput.ParamDecoder, http.Request.*, url.URL.*, http.Header
+// writing a default into the parsed query touches that map only
+//@ func populateDefaultQueryParameters
+//@   modifies *
+//@   preserves all(openapi3), all(routers), http.Request.*, url.URL.*, RequestValidationInput.*, Options.*
 //@ spec nilValue(v any) bool
 //@ func isNilValue
 //@   modifies nothing
@@ -340,3 +348,14 @@ package openapi3filter
 //@   ensures @C05 [schema-decides] old(decOK(parameter, input)) && (old(decFound(parameter, input)) || !old(parameter.Required)) && !nilValue(old(decValue(parameter, input)))
 //@        ==> ((result == nil) <==> visitOK(old(parameter.Schema.Value), old(decValue(parameter, input))))
 //@   tag C05
+
+// ---- C13: a parameter is only ever written into the request as a default, i.e. when default-setting
+// is on and the request did not carry a value; otherwise ValidateParameter leaves the request's URL,
+// header and cookies exactly as received.
+//@ extend func ValidateParameter
+//@   assuming @C13 input != nil && parameter != nil && parameter.Content == nil && parameter.Schema != nil && parameter.Schema.Value != nil && input.Request != nil && input.Request.URL != nil && input.Request.Header != nil
+//@   assuming @C13 forall k int :: 0 <= k && k < len(parameter.Schema.Value.AllOf) ==> parameter.Schema.Value.AllOf[k] != nil && parameter.Schema.Value.AllOf[k].Value != nil
+//@   ensures @C13 [defaults-skipped-request-untouched] old(input.Options) != nil && old(input.Options.SkipSettingDefaults) ==> unchanged(http.Request.URL, http.Request.Header, url.URL.RawQuery, http.Header)
+//@   ensures @C13 [present-parameter-untouched] old(decValue(parameter, input)) != nil ==> unchanged(http.Request.URL, http.Request.Header, url.URL.RawQuery, http.Header)
+//@   ensures @C13 [no-default-nothing-written] !old(hasDefault(parameter.Schema.Value)) ==> unchanged(http.Request.URL, http.Request.Header, url.URL.RawQuery, http.Header)
+//@   tag C13
